@@ -330,7 +330,6 @@ func c10seq(a []string) string {
 // cell runs one session of a real process of `kind` with outcome `oc` on relayer 0 of this world.
 func (w *c10world) cell(kind, oc string) string {
 	nd := w.nodes[0]
-	nd.coord.CoordinatorTimeout, nd.coord.TssTimeout, nd.coord.InitiatePeriod = time.Hour, time.Hour, time.Hour
 	for _, c := range []*lockCounter{nd.ec.c, nd.fr.c} {
 		c.mu.Lock()
 		c.runProbe = ""
@@ -340,6 +339,7 @@ func (w *c10world) cell(kind, oc string) string {
 	// (handleError's fail-watch of a retryable process that just returned releases its subscription a moment after
 	// Execute has returned: let the previous cell settle before counting)
 	waitUntil(2*time.Second, func() bool { return nd.ledger.inner.VerifLiveSubscriptions(sid) == 0 })
+	nd.coord.CoordinatorTimeout, nd.coord.TssTimeout, nd.coord.InitiatePeriod = time.Hour, time.Hour, time.Hour
 	live0 := nd.ledger.inner.VerifLiveSubscriptions(sid)
 	bc0 := nd.ledger.bcasts(sid, c10msgType(kind))
 	threshold := 1
